@@ -295,9 +295,22 @@ func RunHistory(t *core.T) {
 		}
 	}
 	maxOps := []int{6, 20, 60, 150, 400}[s.Pick([]int{2, 3, 3, 2, 1}, "len")]
+	// sometimes a second tree lives in the same process and the history alternates between
+	// the two: each must behave as its own list, whatever the package keeps between calls
+	trees := []*run{r}
+	if s.Chance(1, 5, "twotrees") {
+		other := &run{t: t, w: r.w, nextI: 100000}
+		other.tr = quadtree.New(r.w.Bound)
+		trees = append(trees, other)
+		t.Probe("two_trees_interleaved")
+	}
 	s.Repeat(1, maxOps, maxOps, "op", func(i int) {
 		if t.Failed() {
 			return
+		}
+		r := trees[0]
+		if len(trees) > 1 {
+			r = trees[s.Intn(len(trees), "tree")]
 		}
 		switch s.Pick(w, "kind") {
 		case 0: // add a new pointer
@@ -346,12 +359,18 @@ func RunHistory(t *core.T) {
 			r.query(r.w.DrawQuery(s, 4+s.Intn(2, "q")))
 		}
 	})
-	if !t.Failed() {
+	for _, r := range trees {
+		if t.Failed() {
+			break
+		}
 		// final sweep
 		for k := 0; k < qt.NumQueryKinds && !t.Failed(); k++ {
 			s.Begin("final")
 			r.query(r.w.DrawQuery(s, k))
 			s.End()
+		}
+		if !t.Failed() {
+			r.contents("final")
 		}
 	}
 	sig := uint64(len(r.m.Live))
